@@ -17,7 +17,7 @@ structure Inv (c : Cfg) (s : KA) : Prop where
   timer_le : s.dormant = false → s.timerAt ≤ s.now + c.time
   quiet : s.dormant = false → s.outstanding = false → s.prevNano + c.time ≤ s.timerAt
   pingq : s.outstanding = true → s.prevNano + c.time ≤ s.pingAt ∧ s.timerAt + s.timeoutLeft = s.pingAt + c.timeout
-  dorm : s.dormant = true → s.prevNano + c.time ≤ s.now ∧ s.outstanding = false ∧ s.streams = 0 ∧ c.permit = false
+  dorm : s.dormant = true → s.prevNano + c.time ≤ s.now ∧ s.outstanding = false ∧ (s.streams = 0 ∨ 0 < s.pendingInit) ∧ c.permit = false
   j3 : s.outstanding = true → s.pingAt ≤ max (s.lastRead + c.time) s.appSince + slack c s
   j4 : s.dormant = false → s.outstanding = false → s.timerAt ≤ max (s.lastRead + c.time) s.appSince + slack c s
   j5 : s.dormant = false → s.lastRead > s.prevNano →
@@ -81,6 +81,23 @@ theorem inv_fire {c : Cfg} {s : KA} (h : Inv c s) (hok : Ev.ok s .fire = true) :
           simp at hb hs
           constructor <;> simp only [slack] at * <;> grind
 
+theorem inv_reg {c : Cfg} {s : KA} (h : Inv c s) : Inv c (step c s .regS).1 := by
+  obtain ⟨h1, h2, h3, h4, h5, h6, h7, h8, h9, h10, h11, h12, h13, h14⟩ := h
+  by_cases hc : s.closed = true
+  · simp only [step, stepG, hc, if_true]; exact ⟨h1, h2, h3, h4, h5, h6, h7, h8, h9, h10, h11, h12, h13, h14⟩
+  · simp only [step, stepG, hc]
+    constructor <;> simp only [slack] at * <;> grind
+
+theorem inv_initS {c : Cfg} {s : KA} (h : Inv c s) : Inv c (step c s .initS).1 := by
+  obtain ⟨h1, h2, h3, h4, h5, h6, h7, h8, h9, h10, h11, h12, h13, h14⟩ := h
+  by_cases hc : s.closed = true
+  · simp only [step, stepG, hc, if_true]; exact ⟨h1, h2, h3, h4, h5, h6, h7, h8, h9, h10, h11, h12, h13, h14⟩
+  · by_cases hd : s.dormant = true
+    · simp only [step, stepG, hc, hd, sendAndSleep]
+      constructor <;> simp only [slack] at * <;> grind
+    · simp only [step, stepG, hc, hd]
+      constructor <;> simp only [slack] at * <;> grind
+
 /-- Every enabled event preserves the invariant. -/
 theorem inv_step {c : Cfg} {s : KA} (h : Inv c s) (e : Ev) (hok : e.ok s = true) : Inv c (step c s e).1 := by
   cases e with
@@ -89,6 +106,8 @@ theorem inv_step {c : Cfg} {s : KA} (h : Inv c s) (e : Ev) (hok : e.ok s = true)
   | read => exact inv_read h
   | openS => exact inv_open h
   | doneS => exact inv_done h
+  | regS => exact inv_reg h
+  | initS => exact inv_initS h
 
 theorem run_nil (c : Cfg) (s : KA) : run c s [] = (s, []) := rfl
 
@@ -152,7 +171,8 @@ theorem fire_cases {c : Cfg} {s : KA} (P : KA × List Out → Prop)
       · rw [fire_send hr hb hs]; exact h4 (by omega) hb hs
 
 /-- The dead-peer bound is a consequence of the invariant. -/
-theorem bound_of_inv {c : Cfg} {s : KA} (h : Inv c s) (hc : s.closed = false) (ha : s.applicable c = true) :
+theorem bound_of_inv {c : Cfg} {s : KA} (h : Inv c s) (hc : s.closed = false) (ha : s.applicable c = true)
+    (hcu : s.pendingInit = 0) :
     s.now ≤ deadBound c s.lastRead s.appSince + slack c s := by
   obtain ⟨h1, h2, h3, h4, h5, h6, h7, h8, h9, h10, h11, h12, h13, h14⟩ := h
   simp only [KA.applicable, Bool.or_eq_true, decide_eq_true_eq] at ha
@@ -164,7 +184,7 @@ theorem bound_of_inv {c : Cfg} {s : KA} (h : Inv c s) (hc : s.closed = false) (h
       obtain ⟨_, _, hs, hp⟩ := h9 hd
       rcases ha with ha | ha
       · simp [hp] at ha
-      · omega
+      · rcases hs with hs | hs <;> omega
   have hn := h5 hc hd
   cases ho : s.outstanding with
   | true =>
@@ -196,6 +216,19 @@ theorem noLate_step {c : Cfg} {s : KA} (e : Ev) (hok : e.ok s = true) (hk : NoLa
     | true => simpa [NoLate, step, stepG, hc] using ⟨hk1, hk2⟩
     | false => simpa [NoLate, step, stepG, hc] using ⟨hk1, hk2⟩
   | openS =>
+    cases hc : s.closed with
+    | true => simpa [NoLate, step, stepG, hc] using ⟨hk1, hk2⟩
+    | false =>
+      cases hd : s.dormant with
+      | true =>
+        have := hk2 hd
+        simp [NoLate, step, stepG, hc, hd, sendAndSleep]; omega
+      | false => simpa [NoLate, step, stepG, hc, hd] using hk1
+  | regS =>
+    cases hc : s.closed with
+    | true => simpa [NoLate, step, stepG, hc] using ⟨hk1, hk2⟩
+    | false => simpa [NoLate, step, stepG, hc] using ⟨hk1, hk2⟩
+  | initS =>
     cases hc : s.closed with
     | true => simpa [NoLate, step, stepG, hc] using ⟨hk1, hk2⟩
     | false =>
@@ -244,6 +277,9 @@ theorem clock_agree {c : Cfg} {s : KA} (e : Ev) (hc : s.closed = false) :
   | openS =>
     by_cases hd : s.dormant = true <;> simp [step, stepG, clockStep, hc, hd, sendAndSleep]
   | doneS => simp [step, stepG, clockStep, hc]
+  | regS => simp [step, stepG, clockStep, hc]
+  | initS =>
+    by_cases hd : s.dormant = true <;> simp [step, stepG, clockStep, hc, hd, sendAndSleep]
   | fire =>
     rw [step_fire_eq hc]
     apply fire_cases (c := c) (s := s) (P := fun r => (r.1.now, r.1.lastRead) = clockStep (s.now, s.lastRead) .fire)
@@ -260,6 +296,11 @@ theorem appSince_zero {c : Cfg} (hp : c.permit = true) : ∀ (es : List Ev) (s :
     | read => by_cases hc : s.closed = true <;> simp [step, stepG, hc, h]
     | doneS => by_cases hc : s.closed = true <;> simp [step, stepG, hc, h]
     | openS =>
+      by_cases hc : s.closed = true
+      · simp [step, stepG, hc, h]
+      · by_cases hd : s.dormant = true <;> simp [step, stepG, hc, hd, hp, h, sendAndSleep]
+    | regS => by_cases hc : s.closed = true <;> simp [step, stepG, hc, hp, h]
+    | initS =>
       by_cases hc : s.closed = true
       · simp [step, stepG, hc, h]
       · by_cases hd : s.dormant = true <;> simp [step, stepG, hc, hd, hp, h, sendAndSleep]
